@@ -79,6 +79,7 @@ def compose(seq):
 
 
 def cases(tier, seed):
+    yield from gap_cases(tier, seed)
     D = 2 if tier == 'quick' else 3
     for ground, special in ((False, False), (True, False), (False, True), (True, True)):
         P, f, lam = geom.lattice(seed, ground=ground, special=special)
@@ -95,6 +96,20 @@ def cases(tier, seed):
                 rad = [2e-4 * lam, 3e-5 * lam, 2e-4 * lam]
                 yield dict(env='ideal' if ground else 'free', f=f, lam=lam, pts=pts,
                            st=[dict(a=a, b=b, n=nseg[i], r=rad[i]) for i, (a, b) in enumerate(es)])
+
+
+def gap_cases(tier, seed):
+    """two collinear wires end to end with a gap of 25 matching tolerances (never to be joined), along x and along a
+    diagonal: the matching of wire ends must not depend on where the structure sits"""
+    rot, sc, f = geom.variant(seed)
+    lam = geom.C_MININEC / f
+    for env, h in (('free', 0.1), ('ideal', 0.25)):
+        for u in ((1., 0., 0.), (0.6, 0.8, 0.)):
+            u = np.array(u)
+            o = np.array([0.02, -0.03, h]) * lam
+            pts = [list(o), list(o + 0.24 * lam * u), list(o + 0.241 * lam * u), list(o + 0.481 * lam * u)]
+            yield dict(env=env, f=f, lam=lam, pts=pts, nodomain=True,
+                       st=[dict(a=0, b=1, n=6, r=2e-4 * lam), dict(a=2, b=3, n=6, r=2e-4 * lam)])
 
 
 def base_case(c):
@@ -137,7 +152,7 @@ def evaluate(c):
     from mcx.props.c06 import excitation
     ground = c['env'] != 'free'
     a_case = base_case(c)
-    reason = geom.domain(a_case, c['lam'], ground=ground)
+    reason = None if c.get('nodomain') else geom.domain(a_case, c['lam'], ground=ground)
     if reason:
         return dict(viol=[], skipped='domain:' + reason, evals=0)
     srcs, loads = excitation(c)
@@ -221,7 +236,9 @@ def evaluate(c):
             mb.compute_impedance_matrix()
             mc.compute_impedance_matrix()
             dz = float(np.abs(mb.Z - mc.Z).max() / np.abs(mc.Z).max())
-            if dz > 1e-9:
+            # 1e-6: the two descriptions differ by coordinate rounding (1e-16), which nearly touching wires (a per-tag
+            # scale can push one wire onto another) amplify to ~1e-7; the property itself asks for 5e-4
+            if dz > 1e-6:
                 viol.append(('DEV-Zmat-pertag', 'impedance matrices differ by %.3g for %s' % (dz, tr)))
         canon.append('tag:%s' % tr)
     und = sorted((e['a'], e['b'], e['n']) for e in c['st'])
